@@ -182,11 +182,14 @@ def near_tie_case(rng):
 
 
 def corpus(ctx):
-    for k in range(2 if ctx.quick else 12):
-        c = near_tie_case(ctx.rng)
-        if c is not None:
-            ctx.count("near_tie_large_instances")
-            one_case(ctx, c[0], c[1], "IOU", (3, 10), False, f"corpus.near-tie{k}", check_monotone=False)
+    for k in range(3 if ctx.quick else 20):
+        sc = oracle.near_tie_scene(ctx.rng)
+        if sc is not None:
+            build, better, gap = sc
+            for la, lb in ((1, 2), (2, 1)):      # the lower-scoring reference carries the smaller label in one of them
+                pred, ref = build(la, lb)
+                ctx.count("near_tie_large_instances")
+                one_case(ctx, pred, ref, "IOU", (1, 5), False, f"corpus.near-tie{k}.{la}{lb}", check_monotone=False)
     # repaired defect: prediction eligible for two references with many-to-one (used to raise)
     ref = np.array([[1, 1, 1, 2, 2, 2]], np.uint8)
     pred = np.array([[1, 1, 1, 1, 1, 1]], np.uint8)
